@@ -1,9 +1,28 @@
-(* Props/C05.v -- property C05 (statements proved so far; see DESIGN.md section 7 C05). *)
+(* Props/C05.v -- property C05 (routed delivery).  PARTIAL, see DESIGN.md section 7: what is proved is the
+   routing decision every node takes (the function `_write` uses: Net/Addr.v logi_2_phys iterated by `route`);
+   that each hop's transmission reaches the next node and is processed there, i.e. the end-to-end delivery, is
+   decided by the correspondence run on multi-node worlds and its delivery/path checker (corr/c05.py). *)
 From Coq Require Import NArith List Bool.
-From NRF Require Import Env.Radio Env.RadioFacts.
+From NRF Require Import Env.Radio Env.RadioFacts Net.Addr Net.AddrFacts Net.RouteFacts.
 Import ListNotations.
 Local Open Scope N_scope.
-Theorem C05_status_is_pre_command : forall r cmd data,
-  hd 0 (snd (spi r (cmd :: data))) = status r.
+
+Theorem C05_status_is_pre_command : forall r cmd data, hd 0 (snd (spi r (cmd :: data))) = status r.
 Proof. exact spi_status_first. Qed.
 Print Assumptions C05_status_is_pre_command.
+
+(* For every ordered pair of the 781 node addresses: iterating each node's own next-hop choice reaches the
+   destination along the tree path (up to the common ancestor, then down), in at most 8 hops, each hop being
+   the sender's parent or a direct child. *)
+Theorem C05_hops_follow_the_tree : forall s d,
+  In s all_nodes -> In d all_nodes ->
+  exists r, route 10 TX_NORMAL s d = Some r
+    /\ map fst r = tree_path s d
+    /\ (length r <= 8)%nat
+    /\ steps_ok s (map fst r) = true
+    /\ last (map fst r) s = d.
+Proof.
+  intros s d Hs Hd. destruct (route_correct s d Hs Hd) as (r & H1 & H2 & H3 & H4 & H5 & _).
+  exists r. auto.
+Qed.
+Print Assumptions C05_hops_follow_the_tree.
